@@ -55,6 +55,7 @@ type Contract struct {
 	Assumed  bool
 	Inline   bool
 	Pure     bool
+	Arith    bool // "arith": an operation that computes (and allocates) an arithmetic result; ghost opseen/opmeter record how much memory had been metered when the first one ran (C32)
 	Canary   bool
 	Loops    map[int]*LoopSpec
 	Props    map[string]bool // properties this function is listed under ("props C11 C13")
@@ -735,6 +736,8 @@ func (cs *ContractSet) parseLines(lines []string, file, pkgPath, schemaDir strin
 			cur.Inline = true
 		case "pure":
 			cur.Pure = true
+		case "arith":
+			cur.Arith = true
 		case "canary":
 			cur.Canary = true
 		case "props":
